@@ -31,3 +31,16 @@ def small_unit_params(cname, k):
     p = {"cls": (gl.CLS_NAMES.index(cname), gl.CLS_NAMES.index(cname) + 1)}
     p.update(eqfam.small_params(cname, k))
     return p
+
+
+def family_units(tier, func_mod, quick_thin=True):
+    """The C01 unit table (small graphs of all classes + templates) without the transformation selectors gi/flip."""
+    from vp.props import C01
+    out = []
+    for u in C01.plan(tier, 0, func_mod=func_mod):
+        params = {k: v for k, v in u.params.items() if k not in ("gi", "flip")}
+        pre = [p for p in u.pre if "gi" not in p.replace("lig", "") and "flip" not in p]
+        u.params, u.pre = params, pre
+        u.nontrivial = None
+        out.append(u)
+    return out
